@@ -179,6 +179,11 @@ def run(tier, seed):
         r2.setstate(state)
         flagged = distgen.leaf(r2, d, normalized=True, allow=allow, bounds_p=0.0)      # same parameters; supplies the model term with the flag set
         ops = [rnd.choice([0, 0, 1, 2, 2]) for _ in range(rnd.choice([0, 1, 2, 3, 4, 6]))]
+        # drawing samples is a use of the object like evaluating it: it leaves the density (and its constant) alone, whenever it happens
+        r3 = random.Random(hash(tuple(ops)) ^ 0x1F123BB5)
+        ops = [3 if (o == 2 and r3.random() < 0.5) else o for o in ops]
+        if r3.random() < 0.4:
+            ops = [3] + ops
         x = np.array([[rnd.uniform(-3, 3)] for _ in range(d)])
         with np.errstate(all="ignore"), quiet():
             for o in ops:
@@ -186,19 +191,21 @@ def run(tier, seed):
                     node.obj.normalize()
                 elif o == 1:
                     D.Mixture([node.obj], [1.0])
+                elif o == 3:
+                    node.obj.generate(r3.choice([1, 3]), rng=np.random.default_rng(5))
                 else:
                     node.obj.misfit(x.copy())
             const = float(node.obj.normalization_constant)
             m = float(node.obj.misfit(x.copy()))
-        normalised = any(o != 2 for o in ops)
+        normalised = any(o in (0, 1) for o in ops)
         lp = logpdf(node.desc, x)
-        stim = {"distribution": node.desc, "ops": ["normalize", "Mixture([obj])", "misfit"][0:0] + [("normalize", "mixture", "misfit")[o] for o in ops], "x": x.ravel().tolist()}
-        sh.case(stim, nontrivial=sum(1 for o in ops if o != 2) >= 2, sample={"ops": stim["ops"], "constant": const} if len(sh.samples) < 3 else None)
+        stim = {"distribution": node.desc, "ops": ["normalize", "Mixture([obj])", "misfit"][0:0] + [("normalize", "mixture", "misfit", "generate")[o] for o in ops], "x": x.ravel().tolist()}
+        sh.case(stim, nontrivial=sum(1 for o in ops if o in (0, 1)) >= 2, sample={"ops": stim["ops"], "constant": const} if len(sh.samples) < 3 else None)
         sh.count("normalised" if normalised else "never normalised")
         if normalised and not common.close(m, -lp, 1e-9, 1e-10):
             findings.append(Finding("C14", f"{node.desc['kind']} after the history {stim['ops']}: misfit {m!r} but -log pdf = {-lp!r}",
                                     {"kind": "density", "class": node.desc["kind"]}, {"oracle": "scipy", "stimulus": stim, "misfit": m, "neg_log_pdf": -lp}))
-        reqs.append(f"c14.norm {flagged.proto} {len(ops)} {' '.join(map(str, ops))}".rstrip())
+        reqs.append(f"c14.norm {flagged.proto} {len(ops)} {' '.join(str(2 if o == 3 else o) for o in ops)}".rstrip())   # the model knows evaluations only: generate = evaluate
         metas.append((stim, const))
     for (stim, const), ans in zip(metas, lean_batch(reqs)):
         if not ans.startswith("ok "):
